@@ -31,9 +31,10 @@ ASSUMPTIONS = ['vmon.refspec is a faithful transcription of the published '
 
 
 def shards(tier, seed):
-    return [{'name': 'walk', 'what': 'walk'},
-            {'name': 'wire', 'what': 'wire',
-             'n': 5 if tier == 'quick' else 100}]
+    return common.with_configs(
+        [{'name': 'walk', 'what': 'walk'},
+         {'name': 'wire', 'what': 'wire',
+          'n': 5 if tier == 'quick' else 100}], common.ALL_CONFIGS, take=2)
 
 
 _WHEN = ''
@@ -182,6 +183,8 @@ def _walk(rec, commands):
                   True, 'reply-in-catalogue')
         # constructor defaults: observed by constructing with no arguments
         c = call(cls)
+        if not c.ok and common.skip_under_config(idx):
+            continue
         if not c.ok:
             rec.violation('default-construct-failed',
                           '%s() %s' % (q, c.describe()), {'fact': q})
